@@ -53,7 +53,7 @@ Lemma start_of_stream_rdflib (c : stream_class) (o : soptions) (s : stream) :
   exists sg, stream_new c Generic o = Ok sg /\ st_enc sg = st_enc s /\ st_rep sg = st_rep s /\ st_flow sg = st_flow s /\
              st_logical sg = st_logical s /\ st_opts sg = st_opts s /\ options_row sg = options_row s /\ st_integ s = Rdflib.
 Proof.
-  intros Hnew _. unfold stream_new in *. destruct (negb (preset_ok (so_maxn o))); [discriminate|]. unfold bind in *.
+  intros Hnew _. unfold stream_new in *. destruct (negb (preset_ok (so_maxn o) (so_maxp o) (so_maxd o))); [discriminate|]. unfold bind in *.
   destruct (match so_flow o with Some f => Ok f | None => infer_flow c o end) as [fl|]; [|discriminate].
   destruct (negb (type_compat (physical_type c) (fl_logical fl))); [discriminate|].
   inversion Hnew; subst s. eexists. split; [reflexivity|]. cbn. repeat split; reflexivity.
